@@ -1,9 +1,9 @@
 """C05 -- see DESIGN.md; obligations + oracle sweep."""
 from .. import common as C, generic as G
 
-TRUSTED = ['Coq 8.16.1 kernel + vm_compute', 'translator/*.py', 'oracle harness harness/oracles/C05.py']
-PERRUN = []
-GEN = ('Gen_util',)
+TRUSTED = ['Coq 8.16.1 kernel + vm_compute', 'translator/py2coq.py + translator/tables.py', 'Coq Reals: all algebraic statements are exact-real; LAPACK least-squares/QR/SVD are oracles (not modelled); rounding and conditioning are only validated', 'oracle harness harness/oracles/C05.py']
+PERRUN = ['Char_model.v', 'C16.v', 'C05.v']
+GEN = ('Gen_util', 'Gen_model', 'Gen_tables')
 LEVEL = 'other'
 EXPLANATION = 'obligations: translation of the anchored functions + theorems listed in coverage.theorems; the remaining clauses are validated by the oracle sweep only'
 
